@@ -84,6 +84,10 @@ func oscmdClientScenarios(c *gen.Ctx) []any {
 		// grace period) — costs about 6 s
 		oscmdClientIn{"ignores-term-garbage-blocked-writer", cc.VerifOSClientSpec{Script: "trap '' TERM; sleep 1; printf 'garbage!'; exec sleep 40", Small: 1, BigBytes: 1 << 20, TimeoutS: 20}},
 	}
+	// a client that has taken its requests, writes garbage and then lingers (ignores SIGTERM until
+	// it is killed 5 s later): the failure is reported to the three pending requests at once, and
+	// from that moment on the runner must say that the client is not running — about 6 s
+	ins = append(ins, oscmdClientIn{"ignores-term-garbage-lingers", cc.VerifOSClientSpec{Script: "trap '' TERM; sleep 0.5; printf 'garbage!'; exec sleep 40", Small: 3, TimeoutS: 25}})
 	if c.Thorough() {
 		ins = append(ins,
 			oscmdClientIn{"closes-stdout-keeps-reading", cc.VerifOSClientSpec{Script: "exec 1>&-; cat >/dev/null", Small: 3, TimeoutS: 25}},
